@@ -323,6 +323,22 @@ def _module_callee(repo, fi, c):
     return None
 
 
+def _cannot_raise(repo, g):
+    """The function has no expression that can raise for an odd input outside a sound catch-all, and no loose raise."""
+    inner, _ = _risky_nodes(repo, g)
+    inner = [m for m, w in inner if _catch_all(g, m)[1] is None or _catch_all(g, m)[2]]
+    loose_raise = [s for s in stmts_of(g.node) if isinstance(s, ast.Raise) and _catch_all(g, s)[1] is None]
+    return not inner and not loose_raise
+
+
+def _harmless_parser_method(repo, fi, c):
+    """``x.to_dict()``-like call of a parser method whose body cannot raise."""
+    if isinstance(c, ast.Call) and isinstance(c.func, ast.Attribute) and c.func.attr in PARSER_METHODS:
+        g = fi.mod.functions.get('%s.%s' % (PARSER_CLASS, c.func.attr))
+        return g is not None and _cannot_raise(repo, g)
+    return False
+
+
 def _leaky_parser_functions(repo, flaw):
     """Module-level functions of flaw.py out of which a parser exception can propagate (they call the parser, or
     another such function, outside a sound catch-all).  Methods of the parser class itself are not listed."""
@@ -336,7 +352,7 @@ def _leaky_parser_functions(repo, flaw):
                 if not isinstance(c, ast.Call):
                     continue
                 g = _module_callee(repo, fi, c)
-                site = _is_parser_call(fi, c) or (g is not None and g.qualname in leaky)
+                site = (_is_parser_call(fi, c) and not _harmless_parser_method(repo, fi, c)) or (g is not None and g.qualname in leaky)
                 touches = _is_parser_call(fi, c) or (g is not None and g.qualname in calls_parser)
                 if touches and fi.qualname not in calls_parser:
                     calls_parser.add(fi.qualname)
@@ -678,9 +694,13 @@ def _parser_contained(rep, fs):
         g = _module_callee(repo, ca, c)
         if _is_parser_call(ca, c) or (g is not None and g.qualname in leaky):
             sites.append(c)
+    harmless = [c for c in sites if _harmless_parser_method(repo, ca, c) and (_catch_all(ca, c)[1] is None or _catch_all(ca, c)[2])]
+    for c in harmless:
+        sites.remove(c)
+        rep.ok('R20.b', fkey(ca, c), 'this parser method cannot raise (no call, subscript or raise in its body)', flaw, c)
     contained_elsewhere = [c for c in walk_body(ca.node) if isinstance(c, ast.Call) and _module_callee(repo, ca, c) is not None
                            and _module_callee(repo, ca, c).qualname in calls_parser]
-    if not sites and not contained_elsewhere:
+    if not sites and not contained_elsewhere and not harmless:
         raise AnalysisError('create_app no longer calls the traceback parser')
     for c in sites:
         tr, h, problem = _catch_all(ca, c)
@@ -732,6 +752,18 @@ _SAFE_CONSTRUCTORS = ('dict', 'list', 'tuple', 'set', 'frozenset')
 _SAFE_PREDICATES = ('isinstance', 'bool', 'id', 'type', 'callable')
 
 
+_CONTAINER_METHODS = ('update', 'setdefault', 'append', 'extend', 'insert', 'add', 'copy', 'items', 'keys', 'values', 'get')
+
+
+def _fresh_is_container(fi, name):
+    """Every binding of the local is a dict / list / set display or constructor call (so the container methods are the builtin ones)."""
+    binds = assigned_value(fi.node, name)
+    return bool(binds) and all(
+        idx is None and (isinstance(v, (ast.Dict, ast.List, ast.Set, ast.DictComp, ast.ListComp, ast.SetComp)) or
+                         (isinstance(v, ast.Call) and isinstance(v.func, ast.Name) and v.func.id in ('dict', 'list', 'set')))
+        for st, v, idx in binds)
+
+
 def _safe_builtin_call(n):
     if not (isinstance(n.func, ast.Name) and not any(k.arg is None for k in n.keywords)):
         return False
@@ -755,9 +787,14 @@ def _risky_nodes(repo, fi, depth=0, seen=None):
         if isinstance(n, ast.ExceptHandler):
             for s in ast.walk(n):
                 in_handlers.add(id(s))
+    from .. import effects
+    fresh = effects.fresh_locals(repo, fi)
     for n in walk_body(fi.node):
         if id(n) in in_handlers:
             continue      # handler bodies are judged by _handler_completes
+        if isinstance(n, ast.Call) and isinstance(n.func, ast.Attribute) and isinstance(n.func.value, ast.Name) and \
+                n.func.value.id in fresh and n.func.attr in _CONTAINER_METHODS and _fresh_is_container(fi, n.func.value.id):
+            continue      # info.update(k=v) / lines.append(x) on a container built right here
         if isinstance(n, ast.Subscript) and isinstance(n.ctx, ast.Load):
             out.append((n, 'subscript %s' % short(n, 50)))
         elif isinstance(n, ast.Call):
